@@ -221,6 +221,24 @@ def _run_betwindow(case, ctx):
 
 
 def _run_bet(case, ctx):
+    """(wrapper) every third case the user has set another cross-sectional area on the adsorbate: the area follows it."""
+    import pygaps
+    r = gen.rng(case["seed"], "bet")
+    gen.log_uniform(r, 1e-4, 1e-1)
+    gen.log_uniform(r, 2, 2000)
+    ads = r.choice(["nitrogen", "argon", "krypton", "carbon dioxide"])
+    a_obj = pygaps.Adsorbate.find(ads)
+    old = a_obj.properties["cross_sectional_area"]
+    if case["seed"] % 3 == 0:
+        a_obj.properties["cross_sectional_area"] = round(old * gen.rng(case["seed"], "sigma").uniform(0.5, 2.0), 4)
+        ctx.count("bet", "cross-sectional-area-set-by-the-user")
+    try:
+        _run_bet_body(case, ctx)
+    finally:
+        a_obj.properties["cross_sectional_area"] = old
+
+
+def _run_bet_body(case, ctx):
     import pygaps
     from pygaps.characterisation.area_bet import area_BET
     from pygaps.characterisation.area_bet import area_BET_raw
@@ -502,6 +520,16 @@ def _run_da(case, ctx):
                 ("da_plot_raw/exp-fitted", lambda: da_plot_raw(p, n, T, M, rho, None, lim), True), ("da_plot/exp-fitted", lambda: da_plot(iso, exp=None, p_limits=lim), True)]
     if m == 2.0:
         variants.append(("dr_plot", lambda: dr_plot(iso, p_limits=lim), False))
+    # the same data as the *desorption* branch of an isotherm whose adsorption branch follows other parameters
+    import pygaps as _pg
+    n_other = (V0 * 0.6) * rho / M * numpy.exp(-(R_GAS * T * numpy.log(1 / p) / (E * 1.3))**m)
+    if n_other.min() > 0:
+        two = _pg.PointIsotherm(pressure=list(map(float, p)) + list(map(float, p[::-1])), loading=list(map(float, n_other)) + list(map(float, n[::-1])), branch=[False] * len(p) + [True] * len(p),
+                                material="verif-c14", adsorbate=ads, pressure_mode="relative", pressure_unit=None, loading_basis="molar", loading_unit="mol", material_basis="mass", material_unit="g",
+                                **gen.temp_kw(T))
+        variants.append(("da_plot/des-branch", lambda: da_plot(two, exp=m, p_limits=lim, branch="des"), False))
+        if m == 2.0:
+            variants.append(("dr_plot/des-branch", lambda: dr_plot(two, p_limits=lim, branch="des"), False))
     for entry, fn, fitted in variants:
         res = _call(fn)
         ctx.case(["da", entry, dg, case["window"]])
